@@ -1240,7 +1240,7 @@ def expand_locals(fn, tree, depth=4):
     return sub(tree, depth)
 
 
-def interp(fn, env, until=None, max_paths=32, max_steps=4000, unknown_both=True):
+def interp(fn, env, until=None, max_paths=32, max_steps=4000, unknown_both=True, start=None, max_visits=6):
     """A small concrete interpreter over the event CFG: starting with `env` (canonical text -> value), declarations and
     plain assignments of locals / members whose right-hand side evaluates are recorded (otherwise the name is forgotten),
     ++/-- on known integers are applied, branch conditions are decided with the *current* environment (a condition that
@@ -1287,7 +1287,7 @@ def interp(fn, env, until=None, max_paths=32, max_steps=4000, unknown_both=True)
             budget[0] -= 1
             visits = dict(visits)
             visits[b] = visits.get(b, 0) + 1
-            if visits[b] > 6:
+            if visits[b] > max_visits:
                 out.append(("loop", e_, evs, None))
                 return
             blk = fn.blocks[b]
@@ -1332,5 +1332,5 @@ def interp(fn, env, until=None, max_paths=32, max_steps=4000, unknown_both=True)
             for l, t, _ in succ:
                 go(t, dict(e_), evs, visits)
             return
-    go(fn.entry, dict(env), [], {})
+    go(fn.entry if start is None else start, dict(env), [], {})
     return out
